@@ -54,6 +54,8 @@ def instances(tier):
     fam.append(("3 generic complex 2x3 kets, uniform",
                 [np.array([[1 - 0.5j], [1 - 1j], [0.5 + 0.5j], [-0.5 - 1j], [0.5j], [-1j]]), np.array([[0.5 - 1j], [-0.5], [-0.5 - 0.5j], [1], [-1j], [1 + 0.5j]]),
                  np.array([[-0.5], [1 - 0.5j], [-0.5 + 1j], [-0.5], [-1 + 1j], [0.5 + 0.5j]])], None, [2, 3]))
+    # a prior with an exact zero in the middle, unequal weights on either side
+    fam.append(("3 complex 2x2 kets, prior (1/4,0,3/4)", [np.array([[1], [0], [0], [1j]]), np.array([[0], [0.5], [-0.5j], [0]]), np.array([[0.5], [0.5j], [0], [0.25]])], [0.25, 0.0, 0.75], [2, 2]))
     # mixed storage: the FIRST state is held in a real (float) array, later ones are genuinely complex
     fam.append(("3 2x2 kets, first stored as a float array, the others complex, prior (1/4,1/2,1/4)",
                 [np.array([[1.0], [0.5], [0], [0.5]]), np.array([[0], [0.5], [-0.5j], [0]]), np.array([[0.5], [0.5j], [0], [0.25]])], [0.25, 0.5, 0.25], [2, 2]))
@@ -183,6 +185,25 @@ def ob_list_unchanged(form, d):
     return Obligation("symmetric_extension_hierarchy.callers_list_unchanged", cfg, build, call, oracle, tv=False, neg=neg)
 
 
+def ppt_value(inst):
+    """independent optimum for replay: max sum_i p_i Tr(rho_i M_i) over POVMs whose elements have a PSD partial transpose on the
+    second party (= level 1 of the symmetric-extension hierarchy), written entry by entry with the harness' own index map"""
+    import cvxpy
+    vs, ps, dims = inst[0], inst[1], inst[2]
+    dx, dy = dims
+    N = dx * dy
+    rhos = [np.asarray(rho_exact(v), dtype=complex) for v in vs]
+    Ms = [cvxpy.Variable((N, N), hermitian=True) for _ in vs]
+
+    def pt(M):
+        return cvxpy.bmat([[M[(r // dy) * dy + (c % dy), (c // dy) * dy + (r % dy)] for c in range(N)] for r in range(N)])
+    cons = [sum(Ms) == np.eye(N)]
+    for M in Ms:
+        cons += [M >> 0, pt(M) >> 0]
+    prob = cvxpy.Problem(cvxpy.Maximize(cvxpy.real(sum(float(p) * cvxpy.trace(r @ M) for p, r, M in zip(ps, rhos, Ms)))), cons)
+    return float(prob.solve())
+
+
 class PptDualityTask(Task):
     """T2: the captured dual PPT program is the Lagrange dual of the captured primal PPT program (both built by the real code).
         primal: max Re sum_i <C_i, M_i>  s.t.  sum_i M_i = R,  M_i >= 0,  P_i(M_i) >= 0           (P_i: the code's partial transpose)
@@ -290,7 +311,8 @@ def obligations(tier):
             cfg = {"instance": name, "level": level, "dim": dims}
             t = SdpTask("symmetric_extension_hierarchy.program_is_textbook_program", cfg,
                         (lambda vs=vs, ps=ps, level=level, dims=dims: symmetric_extension_hierarchy([np.array(v) for v in vs], ps, level, list(dims))),
-                        ref_hierarchy, instance=(vs, pp, dims, level), value_of=lambda r: float(r))
+                        ref_hierarchy, instance=(vs, pp, dims, level), value_of=lambda r: float(r),
+                        replay_oracle=ppt_value if level == 1 else None, tol=5e-4)
             t.weight = 50 if level > 1 else 5
             obs.append(t)
         # the dimension argument as a single integer (meaning [d, N/d]) and omitted
